@@ -93,6 +93,16 @@ def gen_script(rng):
                 if rng.random() < 0.5:
                     tests[rng.choice(later)]["actions"].append(["finish", uid])
                 uid += 1
+    # tests skipped by decorator between the others: they start nothing, and nothing is reported for them - whatever
+    # the tests before them left behind
+    k_ = 0
+    while k_ < len(tests):
+        if rng.random() < 0.25:
+            tests.insert(k_ + 1, {"id": -1, "actions": [], "decoSkip": True})
+            k_ += 1
+        k_ += 1
+    for n_, t_ in enumerate(tests):
+        t_["id"] = n_
     ignore = rng.choice([["ign"], ["ign"], ["(?i)ign", "W\\d"], ["(w)orker-9", "(\\w+)=\\1"], ["ign", "w\\d+$"], ["IGN", "ign"],
                          ["idle", "Dummy-\\d{6,}$"], ["ign", "Dummy-\\d{6,}$"]])
     extra = {}
@@ -188,6 +198,14 @@ def directed_scripts():
                                    {"id": 2, "actions": [["start", 2, "threading", "w2"]]},
                                    {"id": 3, "actions": []}],
                          "ignore": ["ign"], "buffer": True}, **({"verbose": verbose} if verbose else {})))
+    # a test skipped by decorator right behind tests that left threads behind
+    out.append({"tests": [{"id": 0, "actions": [["start", 0, "threading", "w0"]]},
+                          {"id": 1, "actions": [], "decoSkip": True},
+                          {"id": 2, "actions": [["start", 1, "_thread", "x"]]},
+                          {"id": 3, "actions": [], "decoSkip": True},
+                          {"id": 4, "actions": [], "decoSkip": True},
+                          {"id": 5, "actions": [["start", 2, "threading", "w5"]]}],
+                "ignore": ["ign"]})
     # an earlier run in the same process ignored every thread name: this one ignores only what it was told to
     out.append({"tests": [{"id": 0, "actions": [["start", 0, "threading", "w0"], ["start", 1, "threading", "ign-1"]]},
                           {"id": 1, "actions": [["start", 2, "_thread", "x"]]}],
